@@ -89,6 +89,7 @@ type c16Opts struct {
 	Cache   bool   `json:"cache_control"`
 	IOFS    bool   `json:"filesystem_is_io_fs,omitempty"`               // StaticOptions.FileSystem = http.FS(os.DirFS(dir)) instead of Directory
 	DirFS   bool   `json:"filesystem_and_directory_both_set,omitempty"` // FileSystem = http.Dir(dir) AND Directory = the parent that holds the outside files: the file system is what counts
+	Missing bool   `json:"directory_does_not_exist,omitempty"`          // Directory names nothing on disk: there is nothing to serve, whatever is asked
 	Logging bool   `json:"enable_logging,omitempty"`                    // StaticOptions.EnableLogging: a log line per served file, nothing else changes
 }
 
@@ -109,7 +110,7 @@ func c16IsDir(p string) bool {
 
 // c16Model is the resolution rule written from the statement (validated at design time).
 func c16Model(method, reqPath string, o c16Opts) c16Expect {
-	if method != "GET" && method != "HEAD" {
+	if method != "GET" && method != "HEAD" || o.Missing {
 		return c16Expect{Kind: "pass"}
 	}
 	rem := reqPath
@@ -164,6 +165,9 @@ func c16Build(root string, o c16Opts) *c16World {
 	if o.DirFS {
 		so.Directory = root
 		so.FileSystem = http.Dir(filepath.Join(root, "pub"))
+	}
+	if o.Missing {
+		so.Directory = filepath.Join(root, "does-not-exist")
 	}
 	if o.Expires {
 		so.Expires = func() string { return "EXPIRES-VALUE" }
@@ -392,12 +396,16 @@ func c16Run(r *core.Run) {
 			opts = append(opts, c16Opts{Prefix: pf, Index: ix, DirFS: true}, c16Opts{Prefix: pf, Index: ix, DirFS: true, ETag: true, Cache: true})
 		}
 	}
+	// a directory that does not exist
+	for _, pf := range []string{"", "st", "/st/"} {
+		opts = append(opts, c16Opts{Prefix: pf, Missing: true}, c16Opts{Prefix: pf, Missing: true, ETag: true, Index: "g.txt"})
+	}
 	// logging switched on (it only adds a log line)
 	for _, pf := range []string{"", "/st"} {
 		opts = append(opts, c16Opts{Prefix: pf, Logging: true}, c16Opts{Prefix: pf, Index: "g.txt", Logging: true, ETag: true, Expires: true}, c16Opts{Prefix: pf, Logging: true, IOFS: true, Cache: true})
 	}
 	methods := []string{"GET", "HEAD", "POST", "PUT", "get", "Head"}
-	r.Rule = "engine E: every request path of up to 3 (thorough 4) segments over {'', ., .., st, stx, pub, f.txt, d, e, h, secret.txt, index.html, %2e%2e, ..\\, f.txt+NUL, g.txt} with and without leading/trailing slash x methods {GET,HEAD,POST,PUT,get,Head} x the option sets (5 prefix spellings x 2 index names, and every combination of ETag/Expires/CacheControl/index/io-fs FileSystem with 2-5 prefix spellings, FileSystem and Directory both given, EnableLogging) x If-None-Match; two handlers built from one edited options slice; files that agree in name, size and modification time in two directories and inside/outside the served directory; {absent, matching, other} over a real directory tree with files outside it; oracle = resolution model over an in-memory copy of the fixture + independent invariants (a 200 body is the content of a regular file inside the directory, no outside token ever appears, 'cannot serve' leaves exactly the rest of the chain's response); non-trivial = path containing '..', an empty segment, NUL, a prefix look-alike or a directory"
+	r.Rule = "engine E: every request path of up to 3 (thorough 4) segments over {'', ., .., st, stx, pub, f.txt, d, e, h, secret.txt, index.html, %2e%2e, ..\\, f.txt+NUL, g.txt} with and without leading/trailing slash x methods {GET,HEAD,POST,PUT,get,Head} x the option sets (5 prefix spellings x 2 index names, and every combination of ETag/Expires/CacheControl/index/io-fs FileSystem with 2-5 prefix spellings, FileSystem and Directory both given, EnableLogging, a Directory that does not exist) x If-None-Match; two handlers built from one edited options slice; files that agree in name, size and modification time in two directories and inside/outside the served directory; {absent, matching, other} over a real directory tree with files outside it; oracle = resolution model over an in-memory copy of the fixture + independent invariants (a 200 body is the content of a regular file inside the directory, no outside token ever appears, 'cannot serve' leaves exactly the rest of the chain's response); non-trivial = path containing '..', an empty segment, NUL, a prefix look-alike or a directory"
 	r.Bounds["paths"] = len(paths)
 	r.Bounds["option_sets"] = len(opts)
 	r.Bounds["methods"] = methods
